@@ -498,6 +498,12 @@ func getRecordWrapper(numFound int, keys [][]byte, pointers []interface{}) (reco
 // PrefixScan returns records at the given prefix and limitNum
 // limitNum: limit the number of the scanned records return.
 func (t *BPTree) PrefixScan(prefix []byte, offsetNum int, limitNum int) (records Records, off int, err error) {
+	return t.prefixScan(prefix, offsetNum, limitNum, nil)
+}
+
+// prefixScan is PrefixScan that leaves out the records for which skip returns
+// true before offsetNum and limitNum are applied, so that they consume neither.
+func (t *BPTree) prefixScan(prefix []byte, offsetNum int, limitNum int, skip func(r *Record) bool) (records Records, off int, err error) {
 	var (
 		n              *Node
 		scanFlag       bool
@@ -529,6 +535,10 @@ func (t *BPTree) PrefixScan(prefix []byte, offsetNum int, limitNum int) (records
 				break
 			}
 
+			if skip != nil && skip(n.pointers[i].(*Record)) {
+				continue
+			}
+
 			if coff < offsetNum {
 				coff++
 				continue
@@ -557,6 +567,12 @@ func (t *BPTree) PrefixScan(prefix []byte, offsetNum int, limitNum int) (records
 // PrefixSearchScan returns records at the given prefix, match regular expression and limitNum
 // limitNum: limit the number of the scanned records return.
 func (t *BPTree) PrefixSearchScan(prefix []byte, reg string, offsetNum int, limitNum int) (records Records, off int, err error) {
+	return t.prefixSearchScan(prefix, reg, offsetNum, limitNum, nil)
+}
+
+// prefixSearchScan is PrefixSearchScan that leaves out the records for which
+// skip returns true before offsetNum and limitNum are applied.
+func (t *BPTree) prefixSearchScan(prefix []byte, reg string, offsetNum int, limitNum int, skip func(r *Record) bool) (records Records, off int, err error) {
 	var (
 		n              *Node
 		scanFlag       bool
@@ -591,6 +607,10 @@ func (t *BPTree) PrefixSearchScan(prefix []byte, reg string, offsetNum int, limi
 			if !bytes.HasPrefix(n.Keys[i], prefix) {
 				scanFlag = false
 				break
+			}
+
+			if skip != nil && skip(n.pointers[i].(*Record)) {
+				continue
 			}
 
 			if coff < offsetNum {
